@@ -116,6 +116,33 @@ def check(repo):
                 if isinstance(a, ast.For) and isinstance(a.iter, ast.Name) and a.iter.id == cpe.params[0]:
                     ok = True
     r1.require(ok, cpe, "check_param_exist raises", "check_param_exist no longer raises ValueError for every missing field of the list")
+    # the test must be true both for an absent field and for the placeholder -1 that the DEFAULT_CONFIGs use for
+    # "must be determined first" (and which doubles as the only refusal of a negative size)
+    def _refuses(value_present, value):
+        for st, exc in raising_ifs(cpe):
+            if exc != "ValueError":
+                continue
+            t = st.test
+            if isinstance(t, ast.Compare) and len(t.ops) == 1 and isinstance(t.left, ast.Call) and isinstance(t.left.func, ast.Attribute) and t.left.func.attr == "get":
+                default = None
+                if len(t.left.args) > 1:
+                    try:
+                        default = ast.literal_eval(t.left.args[1])
+                    except Exception:
+                        return None
+                left = value if value_present else default
+                try:
+                    right = ast.literal_eval(t.comparators[0])
+                except Exception:
+                    return None
+                op = type(t.ops[0])
+                return {ast.Eq: left == right, ast.NotEq: left != right, ast.Is: left is right, ast.IsNot: left is not right,
+                        ast.Lt: (left is not None and right is not None and left < right), ast.LtE: (left is not None and right is not None and left <= right)}.get(op)
+        return None
+    r1.require(_refuses(False, None) is True, cpe, "absent field refused", "check_param_exist does not refuse an absent field")
+    r1.require(_refuses(True, -1) is True, cpe, "placeholder -1 refused",
+               "check_param_exist no longer treats the placeholder value -1 as missing: a size of -1 (the DEFAULT_CONFIG marker for 'determine first', and the only guard "
+               "against a negative block size) now builds a scheme that returns empty results")
     n_reads = 0
     for s in schemes:
         pc = s.config_cls.methods.get("_parse_config") if s.config_cls else None
